@@ -104,12 +104,32 @@ def tlc_stats(out):
 def _run_shard(args):
     binary, scripts, trace, tlcout = args
     rc, out = sh([binary, scripts, trace], timeout=1800)
+    crashed = []
     if rc != 0:
-        return dict(ok=False, err="simrun rc=%d: %s" % (rc, out[-2000:]))
+        # the real client crashed (signal / abort) in some scenario: find which, keep the others
+        with open(scripts) as f: lines = [l.strip() for l in f if l.strip()]
+        good = []
+        for j, line in enumerate(lines):
+            one = scripts + ".one%d" % j
+            with open(one, "w") as f: f.write(line + "\n")
+            rc1, out1 = sh([binary, one, one + ".trace"], timeout=600)
+            if rc1 != 0: crashed.append((j, "exit status %d %s" % (rc1, out1[-300:].replace("\n", " "))))
+            else: good.append(j)
+            for p in (one, one + ".trace"):
+                if os.path.exists(p) and rc1 == 0: os.remove(p)
+        if not crashed:
+            return dict(ok=False, err="simrun rc=%d (not reproducible per scenario): %s" % (rc, out[-2000:]))
+        # re-run without the crashing scenarios replaced by an empty scenario (indices stay aligned)
+        with open(scripts, "w") as f:
+            for j, line in enumerate(lines):
+                f.write((line if j in good else json.dumps(dict(name="crashed-%d" % j, steps=[]))) + "\n")
+        rc, out = sh([binary, scripts, trace], timeout=1800)
+        if rc != 0:
+            return dict(ok=False, err="simrun rc=%d after isolating crashes: %s" % (rc, out[-2000:]))
     rc2, out2 = tlc("TraceObserver.tla", "TraceObserver.cfg", env=dict(TRACE=trace), workers=1, timeout=3000,
                     java_opts="-Xmx3g")
     with open(tlcout, "w") as f: f.write(out2)
-    viol = []
+    viol = [(j, 0, "CXX_x_ClientCrashed") for (j, what) in crashed]
     for line in out2.splitlines():
         line = line.strip().strip('"')
         if line.startswith("VIOL "):
